@@ -252,6 +252,12 @@ func runC02(c *core.Ctx) {
 	})
 	c.Doc("C02.limits", "size-limit comparisons accept the limit itself (encoder/decoder/reader agree)", 5)
 	ruleLimitComparisons(c, "C02.limits")
+	// an opaque value is read by the reader of its own signature: a table of readers kept
+	// across calls (keyed by wire text, or by less than the whole signature) hands one
+	// type's reader to another and grows with every signature ever received
+	c.Doc("C02.stateless", "meta/signature and type/value fill no package-level table outside their initialisers", 2)
+	rulePackageKeepsNoCache(c, "C02.stateless", "meta/signature")
+	rulePackageKeepsNoCache(c, "C02.stateless", "type/value")
 }
 
 func keysOf(m map[string]bool) []string {
